@@ -42,22 +42,33 @@ type verifC01CH struct {
 	srv     *http.Server
 	mode    map[string]string // per aggregator instance ("r1#0"): ok | fail | stall | dead
 	bodies  int
-	markers map[uint32]int // marker second -> number of successful inserts containing it
+	markers map[int32]int // marker row id -> number of successful inserts containing it
 	tr      *verifkit.Trace
 	tagHost uint32
 	release chan struct{}
 }
 
-func verifC01MarkerPattern(sec uint32, tag1 uint32) []byte {
-	// appendKeys: index_type(1) metric(4) time(4) then per tag: int32 + empty string (1 byte 0)
-	p := []byte{0}
-	p = binary.LittleEndian.AppendUint32(p, uint32(verifC01MarkerMetric))
-	p = binary.LittleEndian.AppendUint32(p, sec)
-	p = binary.LittleEndian.AppendUint32(p, 0) // tag0 (env)
-	p = append(p, 0)
-	p = binary.LittleEndian.AppendUint32(p, tag1)
-	p = append(p, 0)
-	return p
+// verifC01MarkerIDs finds the marker rows in a RowBinary body.  Row layout (appendKeys):
+// index_type(1)=0, metric(4), time(4), then per tag int32 + empty string (1 byte 0):
+// tag0 = 0, tag1 = tagHost, tag2 = marker id.
+func verifC01MarkerIDs(body []byte, tagHost uint32) []int32 {
+	var ids []int32
+	prefix := append([]byte{0}, binary.LittleEndian.AppendUint32(nil, uint32(verifC01MarkerMetric))...)
+	for off := 0; ; {
+		i := bytes.Index(body[off:], prefix)
+		if i < 0 {
+			break
+		}
+		p := off + i
+		if p+24 <= len(body) {
+			q := body[p+9:] // after index_type, metric, time
+			if binary.LittleEndian.Uint32(q) == 0 && q[4] == 0 && binary.LittleEndian.Uint32(q[5:]) == tagHost && q[9] == 0 && q[14] == 0 {
+				ids = append(ids, int32(binary.LittleEndian.Uint32(q[10:])))
+			}
+		}
+		off = p + 1
+	}
+	return ids
 }
 
 func (c *verifC01CH) handler(w http.ResponseWriter, r *http.Request) {
@@ -84,30 +95,15 @@ func (c *verifC01CH) handler(w http.ResponseWriter, r *http.Request) {
 		return
 	}
 	// successful insert: find marker rows
-	var secs []uint32
-	prefix := append([]byte{0}, binary.LittleEndian.AppendUint32(nil, uint32(verifC01MarkerMetric))...)
-	for off := 0; ; {
-		i := bytes.Index(body[off:], prefix)
-		if i < 0 {
-			break
-		}
-		p := off + i
-		if p+19 <= len(body) {
-			sec := binary.LittleEndian.Uint32(body[p+5:])
-			if bytes.Equal(body[p:p+19], verifC01MarkerPattern(sec, c.tagHost)) {
-				secs = append(secs, sec)
-			}
-		}
-		off = p + 1
-	}
+	ids := verifC01MarkerIDs(body, c.tagHost)
 	c.mu.Lock()
 	c.bodies++
-	for _, s := range secs {
+	for _, s := range ids {
 		c.markers[s]++
 	}
 	// the event is emitted under c.mu *before* the HTTP response is written, i.e. before the
 	// inserter can acknowledge anything: file order is a valid linearization
-	c.tr.Emit("Stored", "inst", inst, "secs", verifC01U32s(secs))
+	c.tr.Emit("Stored", "inst", inst, "ids", verifC01I32s(ids))
 	c.mu.Unlock()
 	w.WriteHeader(200)
 }
@@ -115,6 +111,13 @@ func (c *verifC01CH) handler(w http.ResponseWriter, r *http.Request) {
 func verifC01U32s(x []uint32) []uint32 {
 	if x == nil {
 		return []uint32{}
+	}
+	return x
+}
+
+func verifC01I32s(x []int32) []int32 {
+	if x == nil {
+		return []int32{}
 	}
 	return x
 }
@@ -226,8 +229,9 @@ type verifC01Cluster struct {
 	hostTag  int32
 	marker   *format.MetricMetaValue
 	mu       sync.Mutex
-	produced map[uint32]bool
+	produced map[int32]bool // marker ids the agent reported in a flushed bucket (hook APrep)
 	marking  atomic.Bool
+	nextID   atomic.Int32
 }
 
 func verifC01FreeAddr() string {
@@ -284,12 +288,20 @@ func (cl *verifC01Cluster) startAggregator(r int) {
 
 // verifC01Install routes hook events of the agent under test (and of the aggregators, as far as
 // they concern that agent) into the trace.  Events of the aggregators' built-in agents are dropped.
-func verifC01Install(tr *verifkit.Trace) {
+func verifC01Install(tr *verifkit.Trace, onPrep func(ids []int32)) {
+	agent.VerifMarkerMetric = verifC01MarkerMetric
 	emit := func(ev string, kv ...any) {
 		for i := 0; i+1 < len(kv); i += 2 {
 			if kv[i] == "host" {
 				if h, _ := kv[i+1].(string); h != "verif-agent" {
 					return
+				}
+			}
+		}
+		if ev == "APrep" && onPrep != nil {
+			for i := 0; i+1 < len(kv); i += 2 {
+				if kv[i] == "markers" {
+					onPrep(kv[i+1].([]int32))
 				}
 			}
 		}
@@ -301,12 +313,12 @@ func verifC01Install(tr *verifkit.Trace) {
 
 
 func verifC01NewCluster(t *testing.T, tr *verifkit.Trace) *verifC01Cluster {
-	cl := &verifC01Cluster{t: t, dir: verifkit.TmpDir(t, "c01-"), tr: tr, hostTag: 4242, produced: map[uint32]bool{}}
+	cl := &verifC01Cluster{t: t, dir: verifkit.TmpDir(t, "c01-"), tr: tr, hostTag: 4242, produced: map[int32]bool{}}
 	ln, err := net.Listen("tcp4", "127.0.0.1:0")
 	if err != nil {
 		t.Fatal(err)
 	}
-	cl.ch = &verifC01CH{ln: ln, mode: map[string]string{}, markers: map[uint32]int{}, tr: tr, tagHost: 77, release: make(chan struct{})}
+	cl.ch = &verifC01CH{ln: ln, mode: map[string]string{}, markers: map[int32]int{}, tr: tr, tagHost: 77, release: make(chan struct{})}
 	cl.ch.srv = &http.Server{Handler: http.HandlerFunc(cl.ch.handler)}
 	go func() { _ = cl.ch.srv.Serve(ln) }()
 	for r := 0; r < 3; r++ {
@@ -335,11 +347,9 @@ func (cl *verifC01Cluster) startAgent(historicWindow int) {
 		if !cl.marking.Load() {
 			return
 		}
-		cl.tr.Emit("Mark", "sec", nowUnix)
-		a.AddCounter(nowUnix, cl.marker, []int32{0, 77}, 1)
-		cl.mu.Lock()
-		cl.produced[nowUnix] = true
-		cl.mu.Unlock()
+		id := cl.nextID.Add(1)
+		cl.tr.Emit("MarkTry", "sec", nowUnix, "id", id)
+		a.AddCounter(nowUnix, cl.marker, []int32{0, 77, id}, 1)
 	}
 	ag, err := agent.MakeAgent("tcp4", agentDir, "", [][]string{{"127.0.0.0/8"}}, acfg, "verif-agent", format.TagValueIDComponentAgent,
 		nil, mc, nil, nil, func(string, ...interface{}) {}, mark, &gcr, nil)
@@ -386,12 +396,12 @@ func (cl *verifC01Cluster) setCH(r int, mode string) {
 	cl.ch.mu.Unlock()
 }
 
-func (cl *verifC01Cluster) missing() []uint32 {
+func (cl *verifC01Cluster) missing() []int32 {
 	cl.mu.Lock()
 	defer cl.mu.Unlock()
 	cl.ch.mu.Lock()
 	defer cl.ch.mu.Unlock()
-	var res []uint32
+	var res []int32
 	for s := range cl.produced {
 		if cl.ch.markers[s] == 0 {
 			res = append(res, s)
@@ -469,8 +479,26 @@ func TestVerifC01(t *testing.T) {
 	res := verifkit.NewResult()
 	defer res.Write(t)
 	tr := verifkit.NewTrace()
-	verifC01Install(tr)
-	cl := verifC01NewCluster(t, tr)
+	var cl *verifC01Cluster
+	var early []int32
+	var emu sync.Mutex
+	verifC01Install(tr, func(ids []int32) {
+		emu.Lock()
+		defer emu.Unlock()
+		if cl == nil {
+			early = append(early, ids...)
+			return
+		}
+		cl.mu.Lock()
+		for _, id := range ids {
+			cl.produced[id] = true
+		}
+		cl.mu.Unlock()
+	})
+	c0 := verifC01NewCluster(t, tr)
+	emu.Lock()
+	cl = c0
+	emu.Unlock()
 	scen := os.Getenv("VERIF_C01_SCENARIO")
 	if scen == "" {
 		scen = "scripted"
@@ -543,7 +571,7 @@ func TestVerifC01(t *testing.T) {
 	}
 	time.Sleep(time.Second)
 	missing := cl.missing()
-	tr.Emit("Quiesce", "missing", verifC01U32s(missing))
+	tr.Emit("Quiesce", "missing", verifC01I32s(missing))
 	cl.mu.Lock()
 	res.Counters["produced"] = len(cl.produced)
 	cl.mu.Unlock()
